@@ -66,7 +66,7 @@ def check(run):
         for n, (fmt, seed) in enumerate(plan):
             tag = "_%s_%s_%d" % (name, fmt, n)
             loadfam.replay_load(run, cases, tmod, tcfg, build_features=(fmt, "quote"), variant=fmt + "-quote", fmt=fmt,
-                                perm_seed=seed, tag=tag, trace_env=tenv, keep_dirs=(n == 1),
+                                perm_seed=seed, tag=tag, trace_env=tenv, keep_dirs=(n <= 1),
                                 key_of=lambda c, r, nm=name, f=fmt, s=seed: _key(nm, f, s, c, r))
             total += len(cases)
             if n == 1:
@@ -82,11 +82,28 @@ def check(run):
                 for r in rejects:
                     run.violation("%s;runs-differ;%s" % (name, r["case"]), "two runs differ at event %s" % r["l"],
                                   {"family": name, "dir": wd, "line": r["l"]})
+        # generated code: the token text of the real code generator must be identical across two fresh runs and
+        # across a permutation of the key order (variants 0 = identity and 1 = seeded permutation, both JSON)
+        if name in ("fk-families", "values", "keys", "fallback"):
+            cg = vp.cargo_build("drv_codegen")
+            outs = []
+            for which, tg in ((0, "a"), (0, "b"), (1, "p")):
+                wd = os.path.join(run.workdir, "load_%s_json_%d" % (name, which))
+                t = os.path.join(wd, "codegen_%s.ndjson" % tg)
+                vp.run_driver(cg, os.path.join(wd, "drv_in.ndjson"), t, len(cases), per_case_timeout=60)
+                outs.append((wd, t))
+            for (wd, t1), (_, t2), what in ((outs[0], outs[1], "runs"), (outs[0], outs[2], "key-order")):
+                summary, rejects, _ = vp.trace_validate("Trace_Same", "Trace_Same.cfg", wd, t1, os.path.join(wd, "cases.ndjson"), env={"TRACE2": t2})
+                run.traces += len(cases)
+                run.events += summary["events"]
+                for r in rejects:
+                    run.violation("%s;codegen-differs-across-%s;%s" % (name, what, r["case"]), "generated token text differs across %s at event %s" % (what, r["l"]),
+                                  {"family": name, "dir": wd, "line": r["l"]})
     run.samples = [{"family": f[0], "cases": len(f[1])} for f in fams]
     run.notes["format_perm_plan"] = [[f, "identity" if s is None else "seeded permutation"] for f, s in plan]
     run.assumptions = ["every family is validated against the specification in every (format, key-order permutation) variant, so all variants denote the spec's outcome",
                        "repeated runs: one variant per family is executed twice in fresh processes and the two traces must be identical event by event",
-                       "identical generated code (token stream) across runs is observed by the codegen check when built; here the parser's results and diagnostics"]
+                       "generated code: the real code generator (leptos_i18n_macro modules included by path) is run in-process twice and on a key-order permutation for 4 families; the token text must be identical"]
     return run.finish("samples of the C01/C03/C04/C05/C06/C07 case families x {json, yaml, json5} x key-order permutations x 2 runs; "
                       "non-trivial: every replayed project variant", {"distinct_nontrivial": total})
 
